@@ -531,6 +531,13 @@ func builtinBytes(args ...Object) (Object, error) {
 
 	// bytes(N) => create a new bytes with given size N
 	if n, ok := args[0].(*Int); ok {
+		if n.Value < 0 {
+			return nil, ErrInvalidArgumentType{
+				Name:     "first",
+				Expected: "non-negative int",
+				Found:    args[0].TypeName(),
+			}
+		}
 		if n.Value > int64(MaxBytesLen) {
 			return nil, ErrBytesLimit
 		}
